@@ -315,3 +315,193 @@ def gen_c06(tier: str, rng: random.Random) -> Iterator[Dict[str, Any]]:
     sc = base_script(reqs, {"*": build.simple_resp_program(chunks=[2])}, fam="c06/malformed-second")
     sc["steps"] = [{"s": "send"}, {"s": "dt", "d": 0.1}]
     yield sc
+
+
+# ------------------------------------------------------------------------------------------
+# Fault / crash-point / timing placement (C03, C05, C07)
+
+def gated_app(ops: List[Any], end: str = "disc") -> List[Any]:
+    """Every op preceded by a gate so that the harness decides when the app advances."""
+    prog: List[Any] = []
+    for op in ops:
+        prog.append(["gate"])
+        prog.append(op)
+    if end == "disc":
+        prog.append(["recv_disc"])
+    elif end == "return":
+        prog.append(["return"])
+    elif end == "raise":
+        prog.append(["raise"])
+    return prog
+
+
+def std_ops(rid: int, chunks: List[int], with_cl: bool = False, read: bool = True) -> List[Any]:
+    ops: List[Any] = []
+    if read:
+        ops.append(["recv_body"])
+    hdrs = [["content-length", str(sum(chunks))]] if with_cl else []
+    ops.append(["send", {"type": "http.response.start", "status": 200, "headers": hdrs}])
+    off = 0
+    for i, size in enumerate(chunks):
+        ops.append(["send", {"type": "http.response.body", "pat": [80 + rid, off, size], "more": i < len(chunks) - 1}])
+        off += size
+    return ops
+
+
+FAULTS = ["eof", "reset", "fail", "shutdown", "expire", "pause-resume"]
+
+
+def fault_step(fault: str, ka: float) -> List[Dict[str, Any]]:
+    if fault == "expire":
+        return [{"s": "dt", "d": ka}]
+    if fault == "pause-resume":
+        return [{"s": "pause"}]
+    return [{"s": fault}]
+
+
+def gen_faults(tier: str, rng: random.Random, focus: str = "c03") -> Iterator[Dict[str, Any]]:
+    """One or two requests, application gated at every op; a fault (client EOF / reset, write
+    failure, shutdown, keep-alive expiry, client stops reading) is injected at every position
+    of the base schedule; the application additionally ends early (return / raise) at every
+    crash point."""
+    ka = 5.0
+    scenarios = []
+    # (requests, chunks, with_cl)
+    scenarios.append(([{"rid": 1, "method": "POST", "target": "/f", "body": {"framing": "cl", "len": 8}}], [3, 4], False))
+    scenarios.append(([{"rid": 1, "method": "GET", "target": "/g"}], [5], True))
+    scenarios.append(([{"rid": 1, "method": "POST", "target": "/p1", "body": {"framing": "chunked", "len": 6, "chunks": [2, 4]}},
+                       {"rid": 2, "method": "GET", "target": "/p2"}], [2, 2], True))
+    if tier == "thorough":
+        scenarios.append(([{"rid": 1, "method": "GET", "target": "/h", "version": "1.0"}], [4, 4], False))
+        scenarios.append(([{"rid": 1, "method": "HEAD", "target": "/h"}], [4], True))
+    for si, (reqs, chunks, with_cl) in enumerate(scenarios):
+        nops = len(std_ops(1, chunks, with_cl, True))
+        ends: List[Any] = [("disc", nops)]
+        for cut in range(0, nops + 1):
+            ends.append(("return", cut))
+            ends.append(("raise", cut))
+        for end, cut in ends:
+            if tier == "quick" and end != "disc" and focus == "c07" and cut not in (0, nops):
+                continue
+            apps = {}
+            for rq in reqs:
+                ops = std_ops(rq["rid"], chunks, with_cl, read="body" in rq or True)
+                if rq["rid"] == 1:
+                    apps["1"] = gated_app(ops[:cut], end)
+                else:
+                    apps[str(rq["rid"])] = gated_app(ops, "disc")
+            sc0 = base_script(reqs, apps, fam="%s/faults/%d/%s@%d" % (focus, si, end, cut))
+            total = stream_len(sc0)
+            head_end = sc0["reqs"][0]["head_end"]
+            base: List[Dict[str, Any]] = []
+            if head_end > 10:
+                base.append({"s": "send", "upto": 7})
+            base.append({"s": "send", "upto": head_end})
+            if total > head_end:
+                if total - head_end > 3:
+                    base.append({"s": "send", "upto": head_end + 3})
+                base.append({"s": "send", "upto": total})
+            for _ in range(cut + 1):
+                base.append({"s": "go", "app": "1", "n": 1})
+            for rq in reqs[1:]:
+                for _ in range(nops + 1):
+                    base.append({"s": "go", "app": str(rq["rid"]), "n": 1})
+            positions = list(range(len(base) + 1))
+            faults = FAULTS + ["none"]
+            for fault in faults:
+                if fault == "none":
+                    pos_list = [len(base)]
+                elif tier == "quick":
+                    k = 3 if end == "disc" else 1
+                    pos_list = sorted(set(rng.sample(positions, min(k, len(positions)))))
+                else:
+                    pos_list = positions
+                for pos in pos_list:
+                    steps = list(base[:pos])
+                    if fault != "none":
+                        steps += fault_step(fault, ka)
+                    steps += base[pos:]
+                    if fault == "pause-resume":
+                        steps.append({"s": "dt", "d": 0.01})
+                        steps.append({"s": "resume"})
+                    steps.append({"s": "dt", "d": 0.1})
+                    sc = dict(sc0)
+                    sc["steps"] = steps
+                    sc["fam"] = "%s/faults/%d/%s@%d/%s" % (focus, si, end, cut, fault)
+                    yield sc
+
+
+def gen_c03(tier: str, rng: random.Random) -> Iterator[Dict[str, Any]]:
+    yield from gen_faults(tier, rng, "c03")
+
+
+def gen_c05(tier: str, rng: random.Random) -> Iterator[Dict[str, Any]]:
+    yield from gen_faults(tier, rng, "c05")
+
+
+def gen_c07(tier: str, rng: random.Random) -> Iterator[Dict[str, Any]]:
+    """Histories with the clock advanced to deadline-1ms and to the deadline at every point."""
+    for ka in ([5.0, 0.5, 60.0] if tier == "thorough" else [5.0, 0.5]):
+        cfg = {"keep_alive_timeout": ka}
+        eps = 0.001
+        # fresh connection, nothing sent
+        for to in (ka - eps, ka, ka + 1):
+            sc = base_script([], {}, cfg=cfg, fam="c07/fresh/%s" % ka)
+            sc["steps"] = [{"s": "tick", "to": to}]
+            yield sc
+        # partial head, then silence
+        req = [{"rid": 1, "method": "GET", "target": "/k"}]
+        for cut in (1, 5, 20):
+            for at in (0.0, ka / 2):
+                sc = base_script(req, {"*": build.simple_resp_program(chunks=[2])}, cfg=cfg, fam="c07/partial-head/%s" % ka)
+                sc["steps"] = [{"s": "tick", "to": at}, {"s": "send", "upto": cut}, {"s": "tick", "to": ka - eps},
+                               {"s": "tick", "to": ka}, {"s": "tick", "to": at + ka - eps}, {"s": "tick", "to": at + ka}]
+                yield sc
+        # request in progress far longer than the timeout (app slow), then response, then idle expiry
+        for busy in (ka * 3,):
+            prog = [["recv_body"], ["gate"]] + build.simple_resp_program(chunks=[2], read_first=False)
+            sc = base_script(req, {"*": prog}, cfg=cfg, fam="c07/busy-then-idle/%s" % ka)
+            sc["steps"] = [{"s": "send"}, {"s": "tick", "to": ka - eps}, {"s": "tick", "to": ka}, {"s": "tick", "to": busy},
+                           {"s": "go", "app": "1", "n": 1}, {"s": "tick", "to": busy + ka - eps}, {"s": "tick", "to": busy + ka}]
+            yield sc
+        # keep-alive: second request arrives just before expiry, then expiry after it
+        reqs2 = [{"rid": 1, "method": "GET", "target": "/k1"}, {"rid": 2, "method": "GET", "target": "/k2"}]
+        sc = base_script(reqs2, {"*": build.simple_resp_program(chunks=[2])}, cfg=cfg, fam="c07/keepalive-second/%s" % ka)
+        first_end = sc["reqs"][0]["end"]
+        sc["steps"] = [{"s": "send", "upto": first_end}, {"s": "tick", "to": ka - eps}, {"s": "send"},
+                       {"s": "tick", "to": ka}, {"s": "tick", "to": 2 * ka - 2 * eps}, {"s": "tick", "to": 2 * ka}]
+        yield sc
+        # pause at every point of a two-request history
+        base = [{"s": "send", "upto": 5}, {"s": "send", "upto": first_end}, {"s": "send", "upto": first_end + 5}, {"s": "send"}]
+        for pos in range(len(base) + 1):
+            for d in (ka - eps, ka):
+                sc2 = base_script(reqs2, {"*": build.simple_resp_program(chunks=[2])}, cfg=cfg, fam="c07/pause-at/%s/%d" % (ka, pos))
+                sc2["steps"] = base[:pos] + [{"s": "dt", "d": d}] + base[pos:] + [{"s": "dt", "d": 0.01}]
+                yield sc2
+        # error response generated by the server for an unknown host: connection then idle
+        badhost = [{"rid": 1, "method": "GET", "target": "/nohost", "headers": [["host", "other.example"]], "kind": "badhost"}]
+        sc = base_script(badhost, {"*": build.simple_resp_program(chunks=[2])}, cfg=dict(cfg, server_names=["hypercorn"]),
+                         fam="c07/error-response/%s" % ka)
+        sc["steps"] = [{"s": "send"}, {"s": "tick", "to": ka - eps}, {"s": "tick", "to": ka}, {"s": "tick", "to": 3 * ka}]
+        yield sc
+        # shutdown while idle / while busy
+        sc = base_script(req, {"*": [["recv_body"], ["gate"]] + build.simple_resp_program(chunks=[2], read_first=False)}, cfg=cfg,
+                         fam="c07/shutdown-busy/%s" % ka)
+        sc["steps"] = [{"s": "send"}, {"s": "shutdown"}, {"s": "dt", "d": ka * 2}, {"s": "go", "app": "1", "n": 1}, {"s": "dt", "d": 0.01}]
+        yield sc
+        sc = base_script(req, {"*": build.simple_resp_program(chunks=[2])}, cfg=cfg, fam="c07/shutdown-idle/%s" % ka)
+        sc["steps"] = [{"s": "send"}, {"s": "dt", "d": 0.01}, {"s": "shutdown"}, {"s": "dt", "d": 0.01}]
+        yield sc
+    yield from gen_faults(tier, rng, "c07")
+    # pipelined request parked behind an unfinished one, peer loss at every point
+    reqs2 = [{"rid": 1, "method": "GET", "target": "/q1"}, {"rid": 2, "method": "GET", "target": "/q2"}]
+    for fault in ("eof", "reset", "fail"):
+        for end in ("disc", "return", "raise"):
+            ops = std_ops(1, [3, 3], False)
+            for cut in ((0, 1, 2, len(ops)) if end != "disc" else (len(ops),)):
+                apps = {"1": gated_app(ops[:cut], end), "2": build.simple_resp_program(chunks=[1])}
+                base = [{"s": "send"}] + [{"s": "go", "app": "1", "n": 1} for _ in range(cut + 1)]
+                for pos in range(1, len(base) + 1):
+                    sc = base_script(reqs2, apps, fam="c07/parked-pipeline/%s/%s@%d" % (fault, end, cut))
+                    sc["steps"] = base[:pos] + [{"s": fault}] + base[pos:] + [{"s": "dt", "d": 0.1}]
+                    yield sc
